@@ -424,7 +424,7 @@ def c18(tier, replay_file=None):
             cpath = os.path.join(wd, "cases.ndjson")
             write_ndjson(cpath, cases)
         else:
-            cpath, g = generate(wd, "WireGen", {"MaxLen": 3 if tier == "quick" else 4, "MaxItems": 2 if tier == "quick" else 3}, env={"KEYS": kpath})
+            cpath, g = generate(wd, "WireGen", {"MaxLen": 3 if tier == "quick" else 4, "MaxItems": 2}, env={"KEYS": kpath})
             cases = read_ndjson(cpath)
             rng = det_rng("c18", 0 if tier == "quick" else seed())
             names = [k["name"] for k in toolkeys]
